@@ -87,6 +87,11 @@
 #include <upipe-filters/upipe_zoneplate.h>
 #include <upipe-filters/upipe_zoneplate_source.h>
 #include <upipe-modules/upipe_blank_source.h>
+#include <upipe-ts/upipe_ts_align.h>
+#include <upipe-ts/upipe_ts_metadata_generator.h>
+#include <upipe-ts/upipe_ts_pcr_interpolator.h>
+#include <upipe-ts/upipe_ts_pid_filter.h>
+#include <upipe-ts/upipe_ts_tstd.h>
 #include <upipe/uref_pic.h>
 #include <upipe/uref_pic_flow.h>
 #include <upipe/uref_sound.h>
@@ -201,11 +206,16 @@ static const struct ptype types[] = {
     { "zoneplate", upipe_zp_mgr_alloc, F_TYPED | F_FLOW_ALLOC },
     /* bins: a source and a filter inside, proxy probes, the bin's output is the last inner pipe's */
     { "blank_source", upipe_blksrc_mgr_alloc, F_TYPED | F_FLOW_ALLOC }, { "zoneplate_source", upipe_zpsrc_mgr_alloc, F_TYPED | F_FLOW_ALLOC },
+    /* transport stream pipes that only need the shim's TS accessors */
+    { "ts_align", upipe_ts_align_mgr_alloc, 0 }, { "ts_metadata_generator", upipe_ts_mdg_mgr_alloc, 0 },
+    { "ts_pcr_interpolator", upipe_ts_pcr_interpolator_mgr_alloc, F_ORDER | F_SAME_PAYLOAD },
+    { "ts_pid_filter", upipe_ts_pidf_mgr_alloc, F_ORDER | F_SAME_PAYLOAD }, { "ts_tstd", upipe_ts_tstd_mgr_alloc, F_ORDER | F_SAME_PAYLOAD },
 };
 #define NTYPES (int)(sizeof(types) / sizeof(types[0]))
 
 static const char *const defs[] = { "block.", "block.mpegts.", "block.h264.", "void.", "block.m3u.", "block.aac.",
-                                    "block.mpeg4.", "block.foo.bar.", "pic.", "sound.s16." };
+                                    "block.mpeg4.", "block.foo.bar.", "pic.", "sound.s16.", "block.mpegtsaligned.",
+                                    "void.scte35." };
 #define NDEFS (int)(sizeof(defs) / sizeof(defs[0]))
 
 /* complete flow definitions for the pipes that look inside pictures and sound,
@@ -695,7 +705,7 @@ static void env_teardown(void)
  * path: DESIGN.md 2.3): no allocation fault while they run */
 static bool faults_allowed(void)
 {
-    static const char *const no_error_path[] = { "m3u_reader", "row_split", NULL };
+    static const char *const no_error_path[] = { "m3u_reader", "row_split", "ts_align", NULL };
     for (int i = 0; no_error_path[i] != NULL; i++)
         if (!strcmp(types[type].name, no_error_path[i]))
             return false;
